@@ -36,6 +36,7 @@ THEOREMS = [
     "FaxVerif.C10.parse_print_idem",
     "FaxVerif.C10.print_parse_idem",
     "FaxVerif.C10.access_depth",
+    "FaxVerif.C10.access_injective",
     "FaxVerif.C10.access_render",
     "FaxVerif.C10.access_typed",
     "FaxVerif.C10.access_exact",
@@ -1048,7 +1049,7 @@ def judge_pipeline(ctx, stream: str, cases: List[Dict[str, Any]], compile_all: b
         ctx.count(f"pipe-backend:{c['backend']}")
         sample = {"backend": c["backend"], "mds": case_mds(c), "enums": c.get("enums", []), "query": query_src(c),
                   "implementation": (r.get("query") if "err" not in r else r)}
-        ctx.case(key, nontrivial_case(c), sample)
+        ctx.case(key, nontrivial_case(c), sample if ctx.dist.get(f"pipe:{stream}", 0) <= 2 and len(c["cols"]) <= 2 or ctx.dist.get(f"pipe:{stream}", 0) == 40 else None)
         if "bad" in m or "bad" in s:
             continue
         mcols = m.get("cols")
@@ -1223,7 +1224,8 @@ def judge_units(ctx):
         ctx.count(f"unit:{stream}")
         if "err" in im:
             ctx.count(f"unit-impl-error:{im['err']}")
-        ctx.case([stream, req], nontriv, {"stream": stream, "request": req, "implementation": im} if stream in ("decor-random", "mf", "enum", "access-random") else None)
+        first = ctx.dist.get(f"unit:{stream}", 0) == 1 and stream in ("decor-random", "mf", "enum")
+        ctx.case([stream, req], nontriv, {"stream": stream, "request": req, "implementation": im} if first else None)
         if "bad" in a or "bad" in b:
             continue
         op = req["op"]
